@@ -221,7 +221,7 @@ var (
 	c20DurVals  = []string{"0s", "-1s", "1ns", "1s", "2562047h47m16.854775807s", c20Missing}
 	c20SizeVals = []string{"0B", "-1B", "1B", "65535B", "65536B", "2147483647B", "2147483648B",
 		"18446744073709551615B", c20Missing}
-	c20BoolVals = []string{"true", "false"}
+	c20BoolVals = []string{"true", "false", c20Missing}
 )
 
 func c20Values(l *c20Leaf) (vals []string) {
@@ -520,6 +520,10 @@ func (w *c20World) eval(c c20Case) (o c20Outcome, fs []vrt.Finding) {
 		})
 	}
 	w.build(conf, &o)
+	if o.Class != "accepted" {
+		// Rejected by a constructor of the start-up sequence after all.
+		fs = nil
+	}
 
 	return o, fs
 }
@@ -585,6 +589,23 @@ func c20ContainsWord(s, name string) bool {
 	}
 }
 
+// sameRejection reports whether the rejection of a pair is the rejection of
+// one of its two single changes (same error text), which is a case of its own
+// in every tier.
+func (w *c20World) sameRejection(c c20Case, errText string) bool {
+	if len(c.Muts) < 2 {
+		return false
+	}
+	for _, m := range c.Muts {
+		so, _ := w.eval(c20Case{Muts: []c20Mut{m}})
+		if so.Class == "rejected/validate" && so.Err == errText {
+			return true
+		}
+	}
+
+	return false
+}
+
 func c20Field(c c20Case) string {
 	var ps []string
 	for _, m := range c.Muts {
@@ -597,10 +618,13 @@ func c20Field(c c20Case) string {
 // runCase evaluates one case and applies the oracle.
 func (w *c20World) runCase(r *vrt.Run, c c20Case) (fs []vrt.Finding) {
 	o, fs := w.eval(c)
+	if os.Getenv("VERIF_C20_TRACE") != "" {
+		fmt.Fprintf(os.Stderr, "  -> %s %q %v\n", o.Class, o.Err, o.Obs)
+	}
 	r.Trans(o.Steps)
 	r.Class(o.Class)
 	r.State(o.Class + "|" + o.Err + "|" + strings.Join(o.Obs, ";"))
-	if o.Class == "rejected/validate" && !w.named(c, o.Err) {
+	if o.Class == "rejected/validate" && !w.named(c, o.Err) && !w.sameRejection(c, o.Err) {
 		fs = append(fs, vrt.Finding{
 			Key: "rejected-unnamed/" + c20Field(c),
 			Detail: fmt.Sprintf("%v is rejected, but the error does not name the changed property: %q",
@@ -610,24 +634,32 @@ func (w *c20World) runCase(r *vrt.Run, c c20Case) (fs []vrt.Finding) {
 	if len(o.Problems) == 0 {
 		return fs
 	}
-	// Attribute behavioural problems to the smallest set of changed fields.
-	culprit := c
+	// Attribute behavioural problems to the smallest set of changed fields: a
+	// problem of a pair that one of its two single changes reproduces on its
+	// own belongs to that single change, which is a case of its own in every
+	// tier.
+	problems := o.Problems
 	if len(c.Muts) > 1 {
+		explained := map[string]bool{}
 		for _, m := range c.Muts {
-			single := c20Case{Muts: []c20Mut{m}}
-			so, _ := w.eval(single)
-			if c20SamePb(so.Problems, o.Problems) {
-				// Reproduced by a single change, which is a case of its own
-				// in every tier.
+			so, _ := w.eval(c20Case{Muts: []c20Mut{m}})
+			for _, p := range so.Problems {
+				explained[p.Kind+"/"+p.Where] = true
+			}
+		}
+		problems = nil
+		for _, p := range o.Problems {
+			if explained[p.Kind+"/"+p.Where] {
 				r.Count("pair-problems-explained-by-single", 1)
 
-				return fs
+				continue
 			}
+			problems = append(problems, p)
 		}
 	}
 	seen := map[string]bool{}
-	for _, p := range o.Problems {
-		key := p.Kind + "/" + c20Field(culprit)
+	for _, p := range problems {
+		key := p.Kind + "/" + c20Field(c)
 		if seen[key] {
 			continue
 		}
@@ -640,20 +672,6 @@ func (w *c20World) runCase(r *vrt.Run, c c20Case) (fs []vrt.Finding) {
 	}
 
 	return fs
-}
-
-func c20SamePb(a, b []c20Pb) bool {
-	ka := map[string]bool{}
-	for _, p := range a {
-		ka[p.Kind+"/"+p.Where] = true
-	}
-	for _, p := range b {
-		if !ka[p.Kind+"/"+p.Where] {
-			return false
-		}
-	}
-
-	return len(b) > 0
 }
 
 func c20Short(s string) string {
@@ -754,6 +772,50 @@ func (w *c20World) genSectionPairs(emit func(c20Case)) {
 	}
 }
 
+// c20Reduced is the reduced alphabet used for pairs of fields of different
+// sections: zero, smallest positive, largest and missing.
+func c20Reduced(l *c20Leaf) (vals []string) {
+	var keep map[string]bool
+	switch l.Kind {
+	case "int":
+		keep = map[string]bool{"0": true, "1": true, "9223372036854775807": true, c20Missing: true}
+	case "duration":
+		keep = map[string]bool{"0s": true, "1ns": true, "2562047h47m16.854775807s": true, c20Missing: true}
+	case "size":
+		keep = map[string]bool{"0B": true, "1B": true, "18446744073709551615B": true, c20Missing: true}
+	default:
+		return c20Values(l)
+	}
+	for _, v := range c20Values(l) {
+		if keep[v] {
+			vals = append(vals, v)
+		}
+	}
+
+	return vals
+}
+
+func (w *c20World) genCrossSectionPairs(emit func(c20Case)) {
+	cross := map[[2]string]bool{}
+	for _, cr := range c20CrossRefs {
+		cross[cr] = true
+		cross[[2]string{cr[1], cr[0]}] = true
+	}
+	ls := w.mutable()
+	for i, a := range ls {
+		for _, b := range ls[i+1:] {
+			if a.Sect == b.Sect || cross[[2]string{a.Path, b.Path}] {
+				continue
+			}
+			for _, va := range c20Reduced(a) {
+				for _, vb := range c20Reduced(b) {
+					emit(c20Case{Muts: []c20Mut{{Path: a.Path, Value: va}, {Path: b.Path, Value: vb}}})
+				}
+			}
+		}
+	}
+}
+
 // ---------------------------------------------------------------------------
 // Test entry point.
 // ---------------------------------------------------------------------------
@@ -817,7 +879,7 @@ func TestVerifC20(t *testing.T) {
 	r.Bound("values_duration", c20DurVals)
 	r.Bound("values_size", c20SizeVals)
 	r.Bound("cross_referenced_pairs", len(c20CrossRefs))
-	r.Bound("deviations", vrt.Pick(r, "1 field; 2 cross-referenced fields", "1 field; 2 cross-referenced fields; any 2 fields of one section"))
+	r.Bound("deviations", vrt.Pick(r, "1 field; 2 cross-referenced fields", "1 field; 2 cross-referenced fields; any 2 fields of one section (full alphabet); any 2 fields of different sections (reduced alphabet: zero, smallest positive, largest, missing)"))
 	r.Note("mutated fields: %s", strings.Join(names, " "))
 
 	// The baseline must be accepted and serviceable, otherwise the harness
@@ -846,6 +908,7 @@ func TestVerifC20(t *testing.T) {
 	vrt.Part(r, "crossref", w.genCross, run)
 	if r.Thorough() {
 		vrt.Part(r, "section-pairs", w.genSectionPairs, run)
+		vrt.Part(r, "cross-section-pairs", w.genCrossSectionPairs, run)
 	}
 	r.Finish()
 	os.Exit(0)
